@@ -7,6 +7,8 @@ real slide, saved, re-opened and read back; every chart type the writer accepts 
 """
 from __future__ import annotations
 
+import os
+
 import io
 
 ID = "C20"
@@ -137,6 +139,36 @@ def run_enums(acc):
         per_enum[name] = n
     acc.extra["member_token_pairs_per_enum"] = per_enum
     run_aliases(acc)
+    run_documented_names(acc)
+
+
+def run_documented_names(acc):
+    """Every member name the published reference page of an enumeration lists (docs/api/enum/<Name>.rst: a line of capitals
+    followed by an indented description) is a member of that enumeration - `MSO_PATTERN.PERCENT_40` must exist if the page says so."""
+    import glob
+    import importlib
+    import re
+
+    from vlib import env
+
+    mods = [importlib.import_module("pptx.enum." + m) for m in ("action", "chart", "dml", "lang", "shapes", "text")]
+    pages = sorted(glob.glob(os.path.join(env.REPO, "docs", "api", "enum", "*.rst")))
+    for page in pages:
+        text = open(page, encoding="utf-8").read()
+        m = re.search(r"^``([A-Z_]+)``\n=+", text, re.M)
+        if not m:
+            continue
+        E = next((getattr(mod, m.group(1)) for mod in mods if hasattr(mod, m.group(1))), None)
+        if E is None or not hasattr(E, "__members__"):
+            acc.count("enum_pages_without_a_class")
+            continue
+        names = re.findall(r"^([A-Z][A-Z0-9_]+)\n {4}\S", text.split("----", 1)[-1], re.M)
+        acc.count("documented_member_names_checked", len(names))
+        acc.hit("enum-doc-page")
+        acc.case(desc={"page": os.path.basename(page), "names": len(names)}, nontrivial=bool(names), cls="doc-page")
+        for n in names:
+            if n not in E.__members__:
+                acc.violation("documented-member-missing:%s:%s" % (E.__name__, n), "%s lists %s, which %s does not have" % (os.path.basename(page), n, E.__name__), {"enum": E.__name__, "member": n})
 
 
 def run_aliases(acc):
